@@ -496,7 +496,7 @@ impl Check for C20Check {
                         word: *r.pick(&[0u32, 0x7F12_3456, 0xBB00_0001, 0xFD00_0000, 0xFE00_003D, 0xFE00_0000, 0x3C00_00FE, 0xC512_3456]),
                     },
                     7 => CbFault::CountersFrom(r.range(1, 3) as u32),
-                    _ if index % 2 == 0 => CbFault::BogusMarker0First,
+                    _ if (index / 2) % 2 == 0 => CbFault::BogusMarker0First,
                     _ => CbFault::FirstTopSet,
                 })
             } else {
